@@ -109,7 +109,15 @@ SCOPE = (
     "(thorough: all 6561) T=4 two-column series over {0,1,2} and 4 / 40 repetitions x 9 kinds x 4 "
     "shapes, T 5..120, N 2..12, tau_max 0..3, bins 1..T+3, even and odd T.  CouplingAnalysis."
     "test_data is only required to be a data set of the property's domain and is used as one more "
-    "input (kind 'test_data') of the cc / ccpure / mi / it / mipure / nd families."
+    "input (kind 'test_data') of the cc / ccpure / mi / it / mipure / nd families.  "
+    "MutualInfoClimateNetwork file cache (family 'midump', checks MutualInfoClimateNetwork/dump-* and "
+    "/set_winter_only-dump-*; 4 / 12 seeded data sets, T 36..120, N 3..6, time_cycle 12, winter_only "
+    "on/off, each in its own temporary working directory): mutual_information(anomaly, dump=True) "
+    "when it computes and stores, when it reads the file back (same arguments, no arguments, a second "
+    "object on the same data), set_winter_only(flag) twice with the default dump=True while the file "
+    "exists, and a second object with a different number of nodes finding a file of the wrong shape: "
+    "every matrix returned or adopted equals the histogram MI (TOL32) of the anomaly series it was "
+    "requested for, reloaded matrices equal the stored one exactly, the file exists after dump=True."
 )
 RULE = (
     "A case is (family, data descriptor, estimator arguments); data descriptors are explicit "
@@ -1592,6 +1600,10 @@ def fam_midump(w, acc):
         msg = f"shape {s3.shape}" if s3.shape != (N + 1, N + 1) else cmp_defined(s3[o3], r3[o3])
         if msg:
             acc.fail("MutualInfoClimateNetwork/dump-wrong-shape-recomputed", w, msg)
+    except Exception as e:    # pylint: disable=broad-except
+        tb = traceback.format_exc().strip().splitlines()
+        acc.fail("MutualInfoClimateNetwork/dump-runs", w,
+                 f"{type(e).__name__}: {e} @ {tb[-3].strip() if len(tb) >= 3 else ''}")
     finally:
         os.chdir(here)
         shutil.rmtree(tmp, ignore_errors=True)
